@@ -460,6 +460,20 @@ func init() {
 		return strC(fmt.Sprintf("<field-text#%d>", m.st.NextObj))
 	})
 
+	reg("context.Background|context.TODO", func(m *M, fn *ssa.Function, a []Value, r ssa.Value) Value {
+		for _, p := range m.ex.Prog.AllPackages() {
+			if p.Pkg.Path() == "context" {
+				for _, n := range []string{"backgroundCtx", "emptyCtx"} {
+					if o := p.Pkg.Scope().Lookup(n); o != nil {
+						return IfaceV{T: o.Type(), V: zero(o.Type())}
+					}
+				}
+			}
+		}
+		abortf("package context not loaded")
+		return nil
+	})
+
 	// ----- misc no-ops -----
 	reg("runtime.Gosched|runtime.KeepAlive|runtime.SetFinalizer|runtime/debug.PrintStack", nop)
 	reg("os.Getenv", func(m *M, fn *ssa.Function, a []Value, r ssa.Value) Value {
